@@ -111,6 +111,13 @@ Check c07_monotone_partial : forall (p : spoly R) r tol cap (s s' : nstate R) b,
   r <= ns_x s' < ns_x s.
 Print Assumptions c07_monotone_partial.
 
+(* the hypothesis tol <= 100 cannot be dropped: with tol = 200 (percent) the iterate 0 of x^2 + 1 from 1 is
+   returned although g 0 = 1 (the stale initial error 100; finding F-C07-STALE-100, also observed on the real code) *)
+Theorem c07_tol_above_100_counterexample : nrm (fun x => Ok (x * x + 1)) (fun x => Ok (2 * x)) 1 100 200 = Ok 0.
+Proof. exact Proofs.Newton.c07_tol_above_100_counterexample. Qed.
+Check c07_tol_above_100_counterexample : nrm (fun x => Ok (x * x + 1)) (fun x => Ok (2 * x)) 1 100 200 = Ok 0.
+Print Assumptions c07_tol_above_100_counterexample.
+
 (* non-vacuity: 2x from 3 returns Ok 0 (a root at the origin), so the hypotheses of c07_sound,
    c07_sound_simple and c07_zero_root are satisfiable *)
 Example c07_nonvacuous : s_nrm p2x 3 100 (1 / 10000) false = Ok 0.
